@@ -174,11 +174,8 @@ impl Response {
         // the client unable to tell where the response ends.
         self.headers.set()
             .ContentType(None)
+            .TransferEncoding(None)
             .ContentLength("0");
-        #[cfg(feature="sse")]
-        if matches!(old_content, Content::Stream(_)) {
-            self.headers.set().TransferEncoding(None);
-        }
         old_content
     }
     pub fn without_content(mut self) -> Self {
